@@ -746,7 +746,9 @@ func checkRefused(c RefusedCase) (string, string) {
 		}
 		done := make(chan struct{})
 		var told string
-		t1.GetHandler("k1", keyvalue.OpHandlerFunc(func(keyvalue.Transaction, keyvalue.OpResult) error {
+		var first string
+		t1.GetHandler("k1", keyvalue.OpHandlerFunc(func(_ keyvalue.Transaction, r keyvalue.OpResult) error {
+			first = val(r)
 			atomic.StoreInt32(&st.refuse, int32(c.Refuse))
 			go func() {
 				defer close(done)
@@ -786,15 +788,18 @@ func checkRefused(c RefusedCase) (string, string) {
 			atomic.StoreInt32(&st.refuse, 0)
 			return nil
 		}))
-		t1.Get("k1")
-		t1.Get("k2")
+		// what T1 reads is captured INSIDE the transaction (in the handlers): a record of the in-memory store hands out its
+		// live blob, which a later writer changes in place once T1 has committed and released the store
+		var again, other string
+		t1.GetHandler("k1", keyvalue.OpHandlerFunc(func(_ keyvalue.Transaction, r keyvalue.OpResult) error { again = val(r); return nil }))
+		t1.GetHandler("k2", keyvalue.OpHandlerFunc(func(_ keyvalue.Transaction, r keyvalue.OpResult) error { other = val(r); return nil }))
 		res, _ := t1.Commit(context.Background())
 		<-done
 		if len(res) != 3 {
 			sig, msg = "C18/mem refused:results", fmt.Sprintf("%d results for 3 calls", len(res))
 			return
 		}
-		if a, b, k2 := val(res[0]), val(res[1]), val(res[2]); a != "init" || b != "init" || k2 != "init" {
+		if a, b, k2 := first, again, other; a != "init" || b != "init" || k2 != "init" {
 			sig = "C18/mem refused:open-transaction-sees-outside-writes"
 			msg = fmt.Sprintf("T1 (open, holding the store) read k1=%q, then the store refused %d Transaction() call(s) of a second caller (%s %s, who was handed %s), then T1 read k1=%q k2=%q: writes from outside became visible inside an open transaction", a, c.Refuse, c.Via, c.Op, told, b, k2)
 		}
